@@ -41,6 +41,7 @@ Definition sweep (fixed : bool) (s : cstate) : cstate :=
 
 Inductive cop :=
 | Install (chan token key : N) (created life : Z)   (* OpenSecureChannelResponse handled: new instance appended, timer armed *)
+| OpenFailed (chan token key : N)                   (* an OpenSecureChannel exchange that fails (e.g. key derivation: null nonce): nothing is published *)
 | Tick (dt : Z).                                    (* the clock advances *)
 
 Definition cstep (fixed : bool) (s : cstate) (o : cop) : cstate :=
@@ -48,6 +49,7 @@ Definition cstep (fixed : bool) (s : cstate) (o : cop) : cstate :=
   | Install chan token key created life =>
       let i := Build_inst (next_id s) chan token key created life in
       sweep fixed {| insts := tset (insts s) chan (iget (insts s) chan ++ [i]); now := now s; next_id := (next_id s + 1)%N |}
+  | OpenFailed _ _ _ => sweep fixed s
   | Tick dt => sweep fixed {| insts := insts s; now := now s + Z.max 0 dt; next_id := next_id s |}
   end.
 
@@ -62,6 +64,7 @@ Fixpoint installed (n : N) (ops : list cop) : list inst :=
   match ops with
   | [] => []
   | Install chan token key created life :: r => Build_inst n chan token key created life :: installed (n + 1)%N r
+  | OpenFailed _ _ _ :: r => installed n r
   | Tick _ :: r => installed n r
   end.
 
